@@ -288,4 +288,37 @@ theorem decodeTimeout_formatInt (ms : Int) (h0 : -9223372036854 ≤ ms) (h1 : ms
   simp only [toI64, nsPerMs]
   omega
 
+/-! ### Reading over the wire (stated for an arbitrary byte string `wire`, so that no proof
+ever evaluates the codec on a concrete `marshal …`) -/
+
+theorem readRequestHeader_ok (wire rest : Bytes) (h : Hdrs) (ctr : Nat) (c : Ctx)
+    (hu : unmarshalStream wire = .ok (h, rest)) (hs : serverCtx h (ctr + 1) = .ok c) :
+    readRequestHeader wire ctr = .ok (c, rest) := by
+  unfold readRequestHeader
+  rw [hu]
+  simp only [hs]
+
+theorem readRequestHeader_err (wire rest : Bytes) (h : Hdrs) (ctr : Nat) (e : Err)
+    (hu : unmarshalStream wire = .ok (h, rest)) (hs : serverCtx h (ctr + 1) = .err e) :
+    readRequestHeader wire ctr = .err e := by
+  unfold readRequestHeader
+  rw [hu]
+  simp only [hs]
+
+theorem ctrAfterRead_ok (wire : Bytes) (ctr : Nat) (x : Ctx × Bytes) (h : readRequestHeader wire ctr = .ok x) :
+    ctrAfterRead wire ctr = ctr + 1 := by
+  unfold ctrAfterRead
+  rw [h]
+
+theorem ctrAfterRead_err (wire : Bytes) (ctr : Nat) (e : Err) (h : readRequestHeader wire ctr = .err e) :
+    ctrAfterRead wire ctr = ctr := by
+  unfold ctrAfterRead
+  rw [h]
+
+theorem readResponseHeader_ok (c : Ctx) (wire rest : Bytes) (h : Hdrs)
+    (hu : unmarshalStream wire = .ok (h, rest)) :
+    readResponseHeader c wire = .ok (mergeResponse c h, rest) := by
+  unfold readResponseHeader
+  rw [hu]
+
 end FV
